@@ -330,3 +330,77 @@ add("C01", lambda tier: [unit_job(1, "parse_status"), win_job(3, "process_wait")
 add("C05", lambda tier: [stop_job(1, tier)] + history_jobs(tier, 0, which=(5, 6, 7)) + [history_job(tier, 1, 7)])
 add("C06", lambda tier: [stop_job(0, tier)] + history_jobs(tier, 0, which=(2, 3, 4)))
 add("C15", lambda tier: history_jobs(tier, 0, which=(0,)))
+
+
+# ------------------------------------------------------------------ reproc++ (IR route)
+CXX_FLAGS = ["-std=c++11", "-O1", "-fno-exceptions", "-fno-vectorize", "-fno-slp-vectorize",
+             "-fno-unroll-loops"]
+
+
+def _cxx_prepare(workdir):
+    """wrap.cpp (+ the repository's reproc.cpp and headers) -> LLVM IR -> C, on every run"""
+    from .runner import REPO, Inconclusive, sh
+    d = os.path.join(workdir, "cxx_gen")
+    os.makedirs(d, exist_ok=True)
+    ll = os.path.join(d, "wrap.ll")
+    inc = ["-I" + os.path.join(REPO, "reproc++", "include"), "-I" + os.path.join(REPO, "reproc++", "src"),
+           "-I" + os.path.join(REPO, "reproc", "include")]
+    rc, so, se, _ = sh(["clang++-14"] + CXX_FLAGS + inc + ["-S", "-emit-llvm", os.path.join(VERIF, "cxx", "wrap.cpp"),
+                                                          "-o", ll], timeout=300)
+    if rc != 0:
+        raise Inconclusive("clang++ failed on the reproc++ wrapper TU:\n" + se[-3000:])
+    rc, so, se, _ = sh(["python3", os.path.join(VERIF, "cxx", "ll2c.py"), ll, os.path.join(d, "wrap_gen.c")], timeout=300)
+    if rc != 0:
+        raise Inconclusive("IR->C translation failed (untranslatable IR is inconclusive, not a verdict):\n" + se[-3000:])
+    # translation validation of the encoder: the generated C (gcc) and the real wrapper TU (g++)
+    # must print identical observations on the same pseudo-random and boundary vectors
+    marker = os.path.join(d, "validated")
+    if not os.path.exists(marker):
+        seed = os.environ.get("VERIF_SEED", "0") or "0"
+        cinc = ["-I" + d, "-I" + os.path.join(VERIF, "cxx"), "-I" + os.path.join(REPO, "reproc", "include")]
+        rc, so, se, _ = sh(["gcc", "-std=gnu99", "-w", "-O0"] + cinc + [os.path.join(VERIF, "cxx", "driver_gen.c"),
+                                                                     "-o", os.path.join(d, "drv_gen")], timeout=300)
+        if rc != 0:
+            raise Inconclusive("differential driver (generated C) does not build:\n" + se[-2000:])
+        rc, so, se, _ = sh(["g++", "-std=c++11", "-w", "-O1", "-fno-exceptions", "-I" + os.path.join(VERIF, "cxx")] + inc +
+                           [os.path.join(VERIF, "cxx", "driver_real.cpp"), "-o", os.path.join(d, "drv_real")], timeout=300)
+        if rc != 0:
+            raise Inconclusive("differential driver (g++ build of the real code) does not build:\n" + se[-2000:])
+        _, og, _, _ = sh([os.path.join(d, "drv_gen"), str(int(seed) + 1), "420"], timeout=120)
+        _, orr, _, _ = sh([os.path.join(d, "drv_real"), str(int(seed) + 1), "420"], timeout=120)
+        if og != orr or not og:
+            lg, lr = og.splitlines(), orr.splitlines()
+            first = next((i for i in range(min(len(lg), len(lr))) if lg[i] != lr[i]), -1)
+            raise Inconclusive("IR->C translator disagrees with the g++ build of the real code at vector %d:\n gen : %s\n real: %s"
+                               % (first, lg[first][:400] if first >= 0 else "", lr[first][:400] if first >= 0 else ""))
+        open(marker, "w").write("%d vectors agree\n" % len(og.splitlines()))
+    return ["-I" + d, "-I" + os.path.join(VERIF, "cxx")]
+
+
+def cxx_job(unit, name, unwind=8, **kw):
+    return Job("h_cxx", variant=name, model=False, shim=False, defines={"VP_CUNIT": unit}, unwind=unwind,
+               prepare=_cxx_prepare, timeout=900, solvers=("cadical",), no_repo_include=True,
+               params={"str_max": 4},
+               loop_rules=[(r"^F_", 8), (r"^ll_mem", 300), (r"^X_vp_inspect", 8)], **kw)
+
+
+prop("C19", units=["reproc++/src/reproc.cpp", "reproc++/include/reproc++/reproc.hpp (options, options::clone, process)",
+                   "reproc++/include/reproc++/arguments.hpp", "reproc++/include/reproc++/env.hpp",
+                   "reproc++/include/reproc++/input.hpp", "reproc++/include/reproc++/detail/array.hpp"],
+     assumptions=COMMON_ASSUME[1:] + [
+         "route: clang++-14 -std=c++11 -O1 -fno-exceptions lowers cxx/wrap.cpp (which #includes the repository's "
+         "reproc.cpp) to LLVM IR, cxx/ll2c.py translates the IR to C, cbmc checks that C; the translator is validated "
+         "on every run by running the gcc build of the generated C and the g++ build of the real TU on 432 shared "
+         "pseudo-random/boundary vectors (outputs must be identical)",
+         "the assertions compare against the C header's own struct reproc_options / reproc_stop_actions / "
+         "reproc_event_source (field order is the C compiler's)",
+         "external calls (reproc_* C functions, std::system_category, std::generic_category, operator new[]/delete[]) are "
+         "argument-recording stubs; new[] never fails; C results range over every int except INT_MIN",
+         "templates are checked for one instantiation each: arguments::from<verif::vec> and env::from<verif::pvec> over a "
+         "transparent container of (pointer, length) strings, <= 2 entries of <= 2 bytes - NOT std::vector<std::string>",
+     ],
+     outside=["drain.hpp and run.hpp (their error_code == errc comparisons dispatch virtually into libstdc++)",
+              "std::vector / std::string / std::map instantiations", "exceptions (compiled with -fno-exceptions)",
+              "Windows handle types"])
+add("C19", lambda tier: [cxx_job(1, "options_from"), cxx_job(2, "clone"), cxx_job(3, "error_code"),
+                         cxx_job(4, "methods", unwind=44), cxx_job(5, "containers", unwind=44), cxx_job(6, "enums", unwind=66)])
